@@ -32,6 +32,68 @@ OUT_OF_REACH = {
 }
 
 
+HYP = {}
+
+
+def hyp_name(a, b, c):
+    name = f'hyp2f1[{a},{b};{c}]'
+    if name not in HYP:
+        import scipy.special as _sc
+        HYP[name] = (a, b, c)
+        tm.FN_EVAL[name] = lambda z, a=a, b=b, c=c: float(_sc.hyp2f1(float(a), float(b), float(c), z))
+    return name
+
+
+class SCStub:
+    """scipy.special for Szekeres: hyp2f1(a, b; a+1; z) is an uninterpreted atom F(z) constrained only by its documented
+    contract (DLMF 8.17.7-8: z^a F(z) / a is the incomplete beta function B_z(a, 1-b)), i.e.
+        d/dz [z^a F(z)] = a z^(a-1) (1-z)^(-b)   <=>   F'(z) = (a/z) ((1-z)^(-b) - F(z)),
+    F'' by differentiating that.  The rule is compared with scipy numerically on every run (stub validation)."""
+    def hyp2f1(self, a, b, c, z):
+        a, b, c = (tm.rationalise(v) for v in (a, b, c))
+        if c != a + 1:
+            raise NotImplementedError('hyp2f1 contract only for c = a + 1')
+        name = hyp_name(a, b, c)
+
+        def one(zj):
+            if not isinstance(zj, Jet):
+                raise NotImplementedError('hyp2f1 of a non-jet')
+            if zj.order > 2:
+                raise NotImplementedError('hyp2f1 contract differentiated to order 2 only')
+            z0 = zj.c[()]
+            F0 = tm.fn(name, [z0])
+            om = tm.sub(tm.ONE, z0)
+            w = tm.rpow(om, -b)
+            w1 = tm.rpow(om, -b - 1)
+            rz = tm.recip(z0)
+            F1 = tm.scale(tm.mul(rz, tm.sub(w, F0)), a)
+            F2 = tm.add(tm.scale(tm.mul(tm.ipow(rz, 2), tm.sub(w, F0)), -a),
+                        tm.scale(tm.mul(rz, tm.sub(tm.scale(w1, b), F1)), a))
+            return zj.compose([F0, F1, F2])
+        if isinstance(z, np.ndarray):
+            out = np.empty(z.shape, dtype=object)
+            for idx in np.ndindex(*z.shape):
+                out[idx] = one(z[idx])
+            return out
+        return one(z)
+
+
+def validate_hyp_stub():
+    """the differential rule of SCStub against scipy (central differences), three points z < 0"""
+    import scipy.special as _sc
+    worst = 0.0
+    a, b, c = 5 / 6, 3 / 2, 11 / 6
+    for z in (-0.3, -2.0, -15.0):
+        h = 1e-5 * max(1.0, abs(z))
+        Fm, F0_, Fp = (_sc.hyp2f1(a, b, c, z + d) for d in (-h, 0.0, h))
+        d1 = (Fp - Fm) / (2 * h)
+        d2 = (Fp - 2 * F0_ + Fm) / h ** 2
+        r1 = (a / z) * ((1 - z) ** (-b) - F0_)
+        r2 = -(a / z ** 2) * ((1 - z) ** (-b) - F0_) + (a / z) * (b * (1 - z) ** (-b - 1) - r1)
+        worst = max(worst, abs(d1 - r1) / max(abs(r1), 1e-12), abs(d2 - r2) / max(abs(r2), 1e-12) * 1e-3)
+    return worst
+
+
 def T0(x):
     return x.trunc(0) if isinstance(x, Jet) else x
 
@@ -85,6 +147,21 @@ def setup(modname):
         over.update(Omega_m_today=Om, Omega_l_today=1 - Om, Hprop_today=H, t_today_EdS=tE, Lambda=3 * (1 - Om) * H * H,
                     a_today=SymReal(tm.ONE))
         pre += [tm.lt(tm.ZERO, Om.t), tm.lt(Om.t, tm.ONE), tm.lt(tm.ZERO, tE.t)]
+    if modname == 'Szekeres':
+        # built on LCDM (same free Omega_m, t_EdS); Amp, k free; tauC = sqrt(3 Lambda / 4) = sqrt(Omega_l) / t_EdS is given in the
+        # form LCDM uses inside its own sinh so that both modules share one exp atom; B = (3/4) H0^2 (Ol Om^2)^(1/3) is written
+        # with LCDM's root atom: (Ol Om^2)^(1/3) = Ol (Om/Ol)^(2/3).  (the module-level float values of these constants are
+        # compared with these relations in constant_relations())
+        Om, tE, Amp, kk = sym('Om'), sym('t_today'), sym('Amp'), sym('kwave')
+        H = 2 / (3 * tE)
+        Ol = 1 - Om
+        c2 = SymReal(tm.root((Om / Ol).t, 3))
+        from symx.npproxy import NPProxy
+        over.update({'LCDM.Omega_m_today': Om, 'LCDM.Omega_l_today': Ol, 'LCDM.Hprop_today': H, 'LCDM.t_today_EdS': tE,
+                     'LCDM.Lambda': 3 * Ol * H * H, 'LCDM.a_today': SymReal(tm.ONE), 'LCDM.kappa': over.get('kappa', sym('kappa')),
+                     'Amp': Amp, 'k': kk, 'tauC': Ol.sqrt() / tE, 'B': F(3, 4) * H * H * Ol * c2 * c2, 'sc': SCStub()})
+        over.pop('kappa', None)
+        pre += [tm.lt(tm.ZERO, Om.t), tm.lt(Om.t, tm.ONE), tm.lt(tm.ZERO, tE.t), tm.lt(tm.ZERO, sym('kappa').t)]
     if modname == 'EdS':
         tt = sym('t_today')
         over.update(t_today=tt, Hprop_today=2 / (3 * tt), a_today=SymReal(tm.ONE), w=0, Omega_m_EdS=1)
@@ -93,16 +170,26 @@ def setup(modname):
 
 
 def module_np_modules(modname):
+    if modname == 'Szekeres':
+        return ('aurel.solutions.Szekeres', 'aurel.solutions.LCDM', 'aurel.maths')
     return ('aurel.solutions.' + modname, 'aurel.maths')
+
+
+def _target(mod, key):
+    """override key 'attr' -> (mod, 'attr'); 'LCDM.attr' -> (aurel.solutions.LCDM, 'attr')"""
+    if '.' in key:
+        m_, a_ = key.split('.')
+        return importlib.import_module('aurel.solutions.' + m_), a_
+    return mod, key
 
 
 def build_module(modname, tier):
     mod, over, pre = setup(modname)
-    saved = {k: getattr(mod, k) for k in over}
+    saved = {k: getattr(*_target(mod, k)) for k in over}
     obs = []
     try:
         for k, v in over.items():
-            setattr(mod, k, v)
+            setattr(*_target(mod, k), v)
         with patched(modules=module_np_modules(modname)):
             c = Ctx(pre=pre, fork=False, decide_timeout=30)
             with use_ctx(c):
@@ -131,8 +218,8 @@ def build_module(modname, tier):
                             obs.append(Ob(f'{modname}: Kdown3[{i},{j}]', T0(K[i, j]), T0(Kor[i, j]), pre,
                                           group=f'{modname}: K_ij == -(d_t gamma_ij)/(2 alpha)'))
                 # (2) Einstein's equations
-                kap = over.get('kappa', 8 * np.pi)
-                Lam = over.get('Lambda', getattr(mod, 'Lambda', 0.0)) if modname not in ('Non_diagonal',) else 0.0
+                kap = over.get('kappa', over.get('LCDM.kappa', 8 * np.pi))
+                Lam = over.get('Lambda', over.get('LCDM.Lambda', getattr(mod, 'Lambda', 0.0))) if modname not in ('Non_diagonal',) else 0.0
                 g0 = oracle.truncate(st.g, 0)
                 if hasattr(mod, 'Tdown4'):
                     Tm = gr.ungrid(mod.Tdown4(t, x, y, z))
@@ -167,14 +254,14 @@ def build_module(modname, tier):
                     # the sympy form is evaluated with sympy symbols standing for the same constants
                     for k_, v_ in over.items():
                         if isinstance(v_, SymReal):
-                            setattr(mod, k_, term_to_sympy(v_.t))
+                            setattr(*_target(mod, k_), term_to_sympy(v_.t))
                         elif isinstance(v_, F):
-                            setattr(mod, k_, sp.Rational(v_.numerator, v_.denominator))
+                            setattr(*_target(mod, k_), sp.Rational(v_.numerator, v_.denominator))
                     try:
                         gs = mod.gammadown3(ts, xs_, ys, zs, analytical=True)
                     finally:
                         for k_, v_ in over.items():
-                            setattr(mod, k_, v_)
+                            setattr(*_target(mod, k_), v_)
                     amap = {ts: sym('t').t, xs_: sym('x').t, ys: sym('y').t, zs: sym('z').t}
                     for k, v in over.items():
                         pass
@@ -200,7 +287,7 @@ def build_module(modname, tier):
                     obs.append(Ob(f'{modname}: st_RicciS', T0(Rs), st.RicciS, pre, group=f'{modname}: shipped scalars'))
     finally:
         for k, v in saved.items():
-            setattr(mod, k, v)
+            setattr(*_target(mod, k), v)
     bad = [o for o in obs if o is None]
     return [o for o in obs if o is not None], pre, len(bad)
 
@@ -226,6 +313,8 @@ def term_to_sympy(root):
             v = 1 / vals[t.args[0].id]
         elif t.op == 'sqrt':
             v = sp.sqrt(vals[t.args[0].id])
+        elif t.op == 'root':
+            v = vals[t.args[0].id] ** sp.Rational(1, t.val)
         else:
             raise ValueError(f'constant with {t.op} node')
         vals[t.id] = v
@@ -254,12 +343,22 @@ def sympy_to_term(e, amap):
         if p.is_Rational:
             return tm.rpow(sympy_to_term(b, amap), F(int(p.p), int(p.q)))
         if p.is_Float:
-            return tm.rpow(sympy_to_term(b, amap), tm.rationalise(float(p)))
+            # sympy adds float exponents (x**(5/3) / x -> x**0.66666666666666674): read them as the small rational within 1e-14
+            pf = F(float(p)).limit_denominator(64)
+            if abs(float(pf) - float(p)) > 1e-14:
+                pf = tm.rationalise(float(p))
+            return tm.rpow(sympy_to_term(b, amap), pf)
         return tm.exp(tm.mul(sympy_to_term(p, amap), tm.log(sympy_to_term(b, amap))))
     if isinstance(e, sp.sin):
         return tm.fn('sin', [sympy_to_term(e.args[0], amap)])
     if isinstance(e, sp.cos):
         return tm.fn('cos', [sympy_to_term(e.args[0], amap)])
+    if isinstance(e, sp.cosh):
+        ex = tm.exp(sympy_to_term(e.args[0], amap))
+        return tm.scale(tm.add(ex, tm.recip(ex)), F(1, 2))
+    if isinstance(e, sp.hyper):
+        (a_, b_), (c_,) = e.ap, e.bq
+        return tm.fn(hyp_name(*(tm.rationalise(float(v)) for v in (a_, b_, c_))), [sympy_to_term(e.argument, amap)])
     if isinstance(e, sp.sinh):
         ex = tm.exp(sympy_to_term(e.args[0], amap))
         return tm.scale(tm.sub(ex, tm.recip(ex)), F(1, 2))
@@ -267,7 +366,7 @@ def sympy_to_term(e, amap):
         return tm.exp(sympy_to_term(e.args[0], amap))
     if isinstance(e, sp.log):
         return tm.log(sympy_to_term(e.args[0], amap))
-    if e.is_Symbol and str(e) in ('fq', 'kappa', 'M', 's', 't_today', 'w', 'k', 'm', 'q', 'Om', 'H'):
+    if e.is_Symbol and str(e) in ('fq', 'kappa', 'M', 's', 't_today', 'w', 'k', 'm', 'q', 'Om', 'H', 'Amp', 'kwave'):
         return tm.var(str(e))
     raise ValueError(f'unsupported {e}')
 
